@@ -297,6 +297,9 @@ def _work(a):
     ti, kind, on_a, on_b = a
     t = _TYPES[ti]
     out = []
+    if cc.ser_only(t):
+        lg = codec.QueryLog(); lg.notes.append("NOT COVERED: serialization-only corpus type (round trip and cross-option deserialization outside the budget)")
+        return [(ti, on_a, "not covered", lg, None, 0.0)]
     try:
         tua = cc.unit_for(t, on_a, "B")
         tub = cc.unit_for(t, on_b, "B") if on_b else None
